@@ -13,6 +13,10 @@ set_option linter.unusedVariables false
 
 variable {ρ : Type} [Inhabited ρ]
 
+/-- a safe computation returns its own value -/
+theorem Safe.and_val {β : Type} {x : Ck β} {P : β → Prop} (h : Safe x P) : Safe x (fun a => P a ∧ a = x.val) :=
+  ⟨h.1, h.2, rfl⟩
+
 /-! ### counting -/
 
 theorem nzc_congr {α : Type} [Inhabited α] (isZ : α → Bool) (a b : Array α) :
